@@ -364,6 +364,17 @@ class Engine:
                     return self.attrs[(c, name)](self, s, v)
                 if (c, name) in self.methods:
                     return [(Bound(v, name), s)]
+            inh = h.get("@inherit") if isinstance(h, dict) else None
+            if inh is not None and name in inh:
+                # not in the object's own namespace: the nearest ancestor that has it, if any (Python attribute lookup)
+                present, val = inh[name]
+                out = []
+                for side, s2 in self.split(s, present):
+                    if side:
+                        out.append((val, s2))
+                    else:
+                        self.raise_(ExcVal("AttributeError", (name,)), s2)
+                return out
             if v.cls in self.closed_classes:
                 self.raise_(ExcVal("AttributeError", (name,)), s)
                 return []
@@ -1982,6 +1993,10 @@ def _b_getattr(eng, s, args, kw):
         raise Unsupported("getattr with symbolic name")
     if d:
         if isinstance(o, Ref) and name not in s.H(o) and not any((c, name) in eng.attrs or (c, name) in eng.methods for c in eng.mro(o.cls)):
+            inh = s.H(o).get("@inherit") if isinstance(s.H(o), dict) else None
+            if inh is not None and name in inh:
+                present, val = inh[name]
+                return [((val if side else d[0]), s2) for side, s2 in eng.split(s, present)]
             return [(d[0], s)]
     return eng.getattr(o, name, s)
 
